@@ -482,3 +482,107 @@ func boolTable(f *ssa.Function, atoms []atomPred, event func(ssa.Instruction) bo
 	}
 	return out, ok
 }
+
+// boolReturnTable: like boolTable, but reports for every assignment of the
+// atoms the set of values the resIdx-th (boolean) result can take
+// (bit 1: false, bit 2: true).
+func boolReturnTable(f *ssa.Function, atoms []atomPred, resIdx int) (map[int]int, bool) {
+	out := map[int]int{}
+	ok := true
+	n := len(atoms)
+	for a := 0; a < 1<<n; a++ {
+		val := func(v ssa.Value) tri {
+			for i, at := range atoms {
+				if is, same := at(v); is {
+					t := a&(1<<i) != 0
+					return triOf(t == same)
+				}
+			}
+			return triUnknown
+		}
+		var eval func(v ssa.Value, pred *ssa.BasicBlock, d int) tri
+		eval = func(v ssa.Value, pred *ssa.BasicBlock, d int) tri {
+			if d > 12 {
+				return triUnknown
+			}
+			if t := val(v); t != triUnknown {
+				return t
+			}
+			switch x := v.(type) {
+			case *ssa.Const:
+				if b, isB := constBool(x); isB {
+					return triOf(b)
+				}
+			case *ssa.UnOp:
+				if x.Op == token.NOT {
+					switch eval(x.X, pred, d+1) {
+					case triTrue:
+						return triFalse
+					case triFalse:
+						return triTrue
+					}
+				}
+				if x.Op == token.MUL {
+					if s := loadedValue(x); s != nil {
+						return eval(s, pred, d+1)
+					}
+				}
+			case *ssa.Phi:
+				if pred != nil {
+					for i, p := range x.Block().Preds {
+						if p == pred {
+							return eval(x.Edges[i], nil, d+1)
+						}
+					}
+				}
+			}
+			return triUnknown
+		}
+		budget := 20000
+		type key struct{ b, p *ssa.BasicBlock }
+		visited := map[key]bool{}
+		var walk func(b, pred *ssa.BasicBlock)
+		walk = func(b, pred *ssa.BasicBlock) {
+			if budget <= 0 {
+				ok = false
+				return
+			}
+			budget--
+			k := key{b, pred}
+			if visited[k] {
+				return
+			}
+			visited[k] = true
+			last := b.Instrs[len(b.Instrs)-1]
+			switch t := last.(type) {
+			case *ssa.Return:
+				if resIdx < len(t.Results) {
+					switch eval(t.Results[resIdx], pred, 0) {
+					case triTrue:
+						out[a] |= 2
+					case triFalse:
+						out[a] |= 1
+					default:
+						out[a] |= 3
+					}
+				}
+			case *ssa.If:
+				switch eval(t.Cond, pred, 0) {
+				case triTrue:
+					walk(b.Succs[0], b)
+				case triFalse:
+					walk(b.Succs[1], b)
+				default:
+					walk(b.Succs[0], b)
+					walk(b.Succs[1], b)
+				}
+			case *ssa.Jump:
+				walk(b.Succs[0], b)
+			}
+		}
+		if len(f.Blocks) > 0 {
+			walk(f.Blocks[0], nil)
+		}
+	}
+	return out, ok
+}
